@@ -7,7 +7,10 @@ usage: w_opt.py --family c09|c10|c15 --seed S --n N --out PREFIX [--replay FILE]
 import argparse
 import json
 import math
+import os
 import random
+import re
+import signal
 import struct
 import sys
 import time
@@ -77,6 +80,52 @@ def fbits(x):
     return struct.pack("<d", float(x)).hex()
 
 
+PER_CALL = ("enable_target", "enable_vary", "enable_vary_name", "disable_target", "disable_vary", "disable_vary_name")
+
+
+def resolve_sel(entries, attrs):
+    """the positions a selector of enable()/disable() switches: an int is a position (negative: from the end), a string is a
+    regular expression that has to match the WHOLE attribute (tag or name).  None when the selector is of another form
+    (True / False / anything else): outside what the model is given"""
+    if entries is None:
+        return []
+    if isinstance(entries, bool):
+        return None
+    if isinstance(entries, (int, str)):
+        entries = [entries]
+    out = []
+    for ent in entries:
+        if isinstance(ent, bool):
+            return None
+        if isinstance(ent, int):
+            if not -len(attrs) <= ent < len(attrs):
+                return None
+            out.append(ent % len(attrs))
+        elif isinstance(ent, str):
+            try:
+                out += [i for i, a in enumerate(attrs) if re.fullmatch(ent, a)]
+            except re.error:
+                return None
+        else:
+            return None
+    return out
+
+
+def step_selectors(args, spec, names):
+    """the six per-call arguments of step() as lists of positions (what the Lean model `Opt.optStepWith` takes), or None"""
+    vtags = [k.get("tag", "") for k in spec["knobs"]]
+    ttags = [t.get("tag", "") for t in spec["targets"]]
+    attrs = {"enable_target": ttags, "disable_target": ttags, "enable_vary": vtags, "disable_vary": vtags,
+             "enable_vary_name": list(names), "disable_vary_name": list(names)}
+    sel = {}
+    for k in PER_CALL:
+        r = resolve_sel(args.get(k), attrs[k])
+        if r is None:
+            return None
+        sel[k] = r
+    return sel
+
+
 class KnobBox(dict):
     """knob container: logs every write"""
 
@@ -91,6 +140,19 @@ class KnobBox(dict):
 
 class UserRaise(Exception):
     pass
+
+
+class CallHang(BaseException):
+    """an API call of the library that has not returned within CALL_BUDGET seconds (a normal call takes milliseconds): not
+    an `Exception`, so that no handler of the library or of the harness absorbs it"""
+
+
+CALL_BUDGET = int(os.environ.get("VERIF_CALL_BUDGET", "30"))
+PROP = "C09"        # the property of the family this worker runs (set in main): a call that does not return is its failure
+
+
+def _on_alarm(signum, frame):
+    raise CallHang()
 
 
 class Act(xd.Action):
@@ -218,12 +280,12 @@ def run_case(case, fail, stats):
                "last_within": bool(getattr(opt._err, "last_point_within_tol", False)),
                "log": [{"knobs": r["knobs"], "vary_active": r["vary_active"], "target_active": r["target_active"]} for r in rows_of(opt)]}
         exc = "ok"
+        signal.alarm(CALL_BUDGET)
         try:
             if name == "solve":
                 opt.solve(broyden=args.get("broyden", False), take_best=args.get("take_best", True))
             elif name == "step":
-                kw = {k: v for k, v in args.items() if k in ("take_best", "broyden", "disable_target", "disable_vary",
-                                                             "disable_vary_name", "enable_target", "enable_vary", "enable_vary_name")}
+                kw = {k: v for k, v in args.items() if k in ("take_best", "broyden") + PER_CALL}
                 opt.step(args.get("n", 1), **kw)
             elif name == "reload":
                 opt.reload(args["i"] if args["i"] < len(opt._log["penalty"]) else 0)
@@ -242,8 +304,16 @@ def run_case(case, fail, stats):
                 raise ValueError(name)
         except UserRaise:
             exc = "UserRaise"
+        except CallHang:
+            # e.g. a bisection loop of the solver that never meets its exit condition: reported as a failing input of the
+            # property being checked, the rest of the case is abandoned (the optimizer is in the middle of a call)
+            stats["calls_not_returning"] = stats.get("calls_not_returning", 0) + 1
+            fail(PROP, "call-does-not-return", {"call": call, "budget_s": CALL_BUDGET, "calls_before": [e["call"] for e in events]})
+            return events
         except Exception as e:
             exc = type(e).__name__
+        finally:
+            signal.alarm(0)
         k_after = [box[n] for n in names]
         f_after = flags(opt)
         L = opt._log
@@ -328,28 +398,42 @@ def run_case(case, fail, stats):
                 fail("C10", "selector-switched-the-wrong-knobs", {"call": call, "before": f_before, "after": f_after,
                                                                   "expected": ["".join(want_v), "".join(want_t)], "names": names})
         if name in ("solve", "step"):
-            # knobs disabled during the whole call never move
+            # knobs disabled during the whole call never move.  The per-call arguments of step() are applied in the order
+            # enable_vary, disable_vary, disable_vary_name, enable_vary_name: only the last re-enables a knob of a disable list
             dis = [i for i in range(nk) if f_before[0][i] == "n"]
-            tmp_dis = []
-            if name == "step":
-                for d in (args.get("disable_vary") or []):
-                    if isinstance(d, int):
-                        tmp_dis.append(d)
-                for d in (args.get("disable_vary_name") or []):
-                    tmp_dis += [i for i, n in enumerate(names) if n == d]
-            en = set(args.get("enable_vary") or []) if name == "step" else set()
-            for i in set(dis + tmp_dis) - en:
-                moved = [r for r in range(nrows0, nrows_of(L)) if L["knobs"][r][i] != k_before[i]]
-                if (moved or k_after[i] != k_before[i]) and exc == "ok":
-                    fail("C10", "disabled-knob-moved", {"knob": i, "before": k_before[i], "after": k_after[i]})
-                    break
-            if name == "step" and exc == "ok":
-                # arguments act "for the performed steps": afterwards the named knobs/targets are active again
-                want_v = "".join("y" if i in tmp_dis else ch for i, ch in enumerate(f_before[0]))
-                tdis = [d for d in (args.get("disable_target") or []) if isinstance(d, int)]
-                want_t = "".join("y" if i in tdis else ch for i, ch in enumerate(f_before[1]))
-                if f_after != (want_v, want_t):
-                    fail("C10", "temporary-flags-not-restored", {"call": call, "before": f_before, "after": f_after})
+            sel = step_selectors(args if name == "step" else {}, spec, names)
+            if sel is not None:
+                tmp_dis = set(sel["disable_vary"]) | set(sel["disable_vary_name"])
+                off = ((set(dis) - set(sel["enable_vary"])) | tmp_dis) - set(sel["enable_vary_name"])
+                for i in sorted(off):
+                    moved = [r for r in range(nrows0, nrows_of(L)) if L["knobs"][r][i] != k_before[i]]
+                    if (moved or k_after[i] != k_before[i]) and exc == "ok":
+                        fail("C10", "disabled-knob-moved", {"knob": i, "before": k_before[i], "after": k_after[i]})
+                        break
+                if name == "step" and exc == "ok":
+                    # arguments act "for the performed steps": afterwards the knobs / targets named by a disable_* argument are
+                    # active again, those named by an enable_* argument are inactive again (the undo mirrors the set-up, in the
+                    # same order), every other flag is what it was
+                    want_v = "".join("n" if i in sel["enable_vary_name"] else "y" if i in tmp_dis else
+                                     "n" if i in sel["enable_vary"] else ch for i, ch in enumerate(f_before[0]))
+                    want_t = "".join("y" if i in sel["disable_target"] else "n" if i in sel["enable_target"] else ch
+                                     for i, ch in enumerate(f_before[1]))
+                    if f_after != (want_v, want_t):
+                        fail("C10", "temporary-flags-not-restored", {"call": call, "before": f_before, "after": f_after,
+                                                                     "expected": [want_v, want_t]})
+                    if any(args.get(k) is not None for k in PER_CALL):
+                        stats["per_call_args_steps"] = stats.get("per_call_args_steps", 0) + 1
+                        # the rows logged by the call record the flags in force DURING the call
+                        dur_v = "".join("y" if i in sel["enable_vary_name"] else "n" if i in tmp_dis else
+                                        "y" if i in sel["enable_vary"] else ch for i, ch in enumerate(f_before[0]))
+                        dur_t = "".join("n" if i in sel["disable_target"] else "y" if i in sel["enable_target"] else ch
+                                        for i, ch in enumerate(f_before[1]))
+                        for r in range(nrows0, nrows_of(L)):
+                            if (L["vary_active"][r], L["target_active"][r]) != (dur_v, dur_t):
+                                fail("C10", "row-flags-not-those-of-the-call", {"call": call, "row": r, "before": f_before,
+                                                                                "row_flags": [L["vary_active"][r], L["target_active"][r]],
+                                                                                "expected": [dur_v, dur_t]})
+                                break
             # max_step between consecutive Jacobian steps
             for r in range(max(1, nrows0), nrows_of(L)):
                 if L["alpha"][r] is not None and L["alpha"][r] >= 0:
@@ -379,12 +463,18 @@ def run_case(case, fail, stats):
             # starts from (otherwise reloading the rows in order hides a knob that is not written)
             for i, n in enumerate(names):
                 box[n] = 977.25 + 3 * i
+            signal.alarm(CALL_BUDGET)
             try:
                 opt.reload(r)
+            except CallHang:
+                fail(PROP, "call-does-not-return", {"call": ["reload", {"i": r}], "budget_s": CALL_BUDGET, "where": "rows reloaded at the end"})
+                return events
             except Exception as e:
                 if start_inside and not isinstance(e, UserRaise):
                     fail("C15", "reload-raises", {"row": r, "exc": type(e).__name__})
                 continue
+            finally:
+                signal.alarm(0)
             stats["rows_reloaded"] += 1
             kk = [box[n] for n in names]
             for i in range(nk):
@@ -468,8 +558,13 @@ def driver_line(case, e):
         return None
     if spec.get("check_limits") is False:
         return None          # the skeleton models the default configuration (limits checked by the merit function)
-    if name == "step" and any(k in args for k in ("disable_target", "disable_vary", "disable_vary_name", "enable_target", "enable_vary", "enable_vary_name")):
-        return None
+    sel = None
+    if name == "step" and any(args.get(k) is not None for k in PER_CALL):
+        # per-call arguments: e["pre"] is the state BEFORE they are applied (it is recorded before step() is entered); the
+        # model gets the positions each argument switches and runs flags / call / undo itself (`Opt.optStepWith`)
+        sel = step_selectors(args, spec, [KNAMES[i] for i in range(spec["nk"])])
+        if sel is None:
+            return None
     if e["exc"] not in ("ok", "UserRaise", "RuntimeError", "ValueError"):
         return None          # numerical failures inside numpy (LinAlgError, ...) are outside the model
     knobs = spec["knobs"]
@@ -485,6 +580,8 @@ def driver_line(case, e):
                "ttol": [fbits(t["tol"]) for t in spec["targets"]],
                "ftable": ftable, "assert": spec.get("assert_within_tol", True), "restore": spec.get("restore_if_fail", True)}
     call = {"kind": name}
+    if sel is not None:
+        call["args"] = sel
     if name in ("solve", "step"):
         its = reconstruct_iters(e["trace"])
         if its is None:
@@ -624,6 +721,10 @@ def gen_calls(rng, spec, family):
                 a["disable_vary"] = [rng.randrange(nk)]
             elif x < 0.4 and nk > 1:
                 a["disable_vary_name"] = [KNAMES[rng.randrange(nk)]]
+            elif x < 0.52:
+                # all six per-call arguments, several at once, overlapping.  Drawn from a generator of its own (seeded by x),
+                # so that the main stream — problems and call sequences — is the one it was before these existed
+                gen_per_call(random.Random(int(x * 2 ** 53)), a, spec)
             calls.append(["step", a])
         elif r < 0.6:
             calls.append(["solve", {"broyden": rng.random() < 0.3}])
@@ -645,6 +746,32 @@ def gen_calls(rng, spec, family):
             lo, hi = spec["knobs"][k].get("limits") or [-1.0, 1.0]
             calls.append(["poke", {"knob": k, "value": round(rng.uniform(lo * 0.5, hi * 0.5), 3)}])
     return calls
+
+
+def gen_per_call(r, a, spec):
+    """one to three of enable_target / enable_vary / enable_vary_name / disable_target / disable_vary / disable_vary_name, by
+    position, by tag (enable only: a tag may name every knob) or by name; the same knob may be named by several of them
+    (the order in which step() applies them then decides).  Never every knob or every target disabled by the arguments"""
+    nk, nt = spec["nk"], len(spec["targets"])
+    kinds = ["enable_target", "enable_vary", "enable_vary_name"]
+    if nt > 1:
+        kinds.append("disable_target")
+    if nk > 1:
+        kinds += ["disable_vary", "disable_vary_name"]
+    k0 = r.randrange(nk)             # a knob several arguments may share
+    for kind in r.sample(kinds, r.randint(1, min(3, len(kinds)))):
+        if kind == "enable_target":
+            a[kind] = [r.choice(["p", "q"])] if r.random() < 0.3 else [r.randrange(nt)]
+        elif kind == "enable_vary":
+            a[kind] = [r.choice(["a", "b"])] if r.random() < 0.3 else [k0 if r.random() < 0.5 else r.randrange(nk)]
+        elif kind == "enable_vary_name":
+            a[kind] = [KNAMES[k0 if r.random() < 0.5 else r.randrange(nk)]]
+        elif kind == "disable_target":
+            a[kind] = [r.randrange(nt)]
+        elif kind == "disable_vary":
+            a[kind] = [k0 if r.random() < 0.5 else r.randrange(nk)]
+        elif kind == "disable_vary_name":
+            a[kind] = [KNAMES[k0 if r.random() < 0.5 else r.randrange(nk)]]
 
 
 def gen_log_reads(rng, calls):
@@ -717,6 +844,24 @@ def fixed_cases():
     yield {"problem": {"class": "far", "kind": "linear", "nk": 1, "A": [[1]], "b": [10],
                         "knobs": [{"init": 0.0, "max_step": 1, "weight": 4}], "targets": [{"tol": 1e-9}], "n_steps_max": 3},
            "calls": [["step", {"n": 1}]]}
+    # per-call arguments naming the same knob / target several times: the order in which step() applies and undoes them
+    # decides (enable_vary, disable_vary, disable_vary_name, enable_vary_name); knobs / targets that are off before the call
+    P3 = {"class": "converge", "kind": "linear", "nk": 3, "A": [[3, 1, 0.5], [1, 4, 0.25], [0.5, 1, 5]], "b": [1, 2, -1],
+          "knobs": [{"init": 0.5, "limits": [-10, 10], "tag": "a"}, {"init": -0.5, "limits": [-10, 10], "tag": "b"},
+                    {"init": 0.25, "limits": [-10, 10], "tag": "a"}],
+          "targets": [{"tol": 1e-9, "tag": "p"}, {"tol": 1e-9, "tag": "q"}, {"tol": 1e-9, "tag": "p"}], "n_steps_max": 10}
+    for kw in ({"disable_vary": [2, 0], "enable_vary_name": ["k2"], "enable_vary": [0]},
+               {"enable_vary": ["a"], "disable_vary_name": ["k1"], "enable_target": ["q"]},
+               {"enable_vary": [1], "enable_target": [1]},
+               {"disable_vary": [1], "disable_vary_name": ["k2"], "disable_target": [1]},
+               {"enable_vary_name": ["k10"], "disable_vary": [-3], "disable_target": [0], "enable_target": [0]}):
+        yield {"problem": dict(P3), "calls": [["disable", {"vary": [1], "target": [1]}], ["step", dict(n=2, **kw)],
+                                              ["step", {"n": 1}], ["step", dict(n=1, take_best=False, **kw)], ["solve", {}]]}
+    # ... and a step() with per-call arguments that RAISES (the user's action fails away from the start point): there is no
+    # try/finally in step(), the flags stay as the arguments set them; the calls after it start from those flags
+    for kw in ({"disable_vary": [1], "disable_target": [1]}, {"enable_vary_name": ["k10"], "disable_vary_name": ["k2"]}):
+        yield {"problem": dict(P3, raise_region=[0, 0.5 - 0.05, 0.5 + 0.05], **{"class": "raise"}),
+               "calls": [["disable", {"vary": [1]}], ["step", dict(n=2, **kw)], ["step", {"n": 1}], ["tag", {}]]}
     # step(disable_target=...) and friends
     for kw in ({"disable_target": [1]}, {"disable_vary": [1]}, {"disable_vary_name": ["k1"]}):
         yield {"problem": {"class": "converge", "kind": "linear", "nk": 2, "A": [[3, 1], [1, 4]], "b": [1, 2],
@@ -734,6 +879,9 @@ def main():
     ap.add_argument("--replay", default=None)
     ap.add_argument("--fixed", action="store_true")
     a = ap.parse_args()
+    global PROP
+    PROP = a.family.upper()
+    signal.signal(signal.SIGALRM, _on_alarm)
     rng = random.Random(a.seed * 1000003 + sum(map(ord, a.family)))
     t0 = time.time()
     stats = dict(ops=0, histories=0, cases=0, calls=0, solve_ok=0, solve_raise=0, rows_reloaded=0, build_failed=0)
